@@ -81,7 +81,10 @@ class C06Layout(Scenario):
             if live and r < 35:
                 x = rng.choice(live)
                 return {"op": "remove", "k": x, "n": rng.between(1, min(self.out[x], 3))}
-            return {"op": "add", "k": k, "n": rng.weighted([(6, 1), (2, 2), (1, 40)])}
+            n = rng.weighted([(6, 1), (2, 2), (1, 40)])
+            if rng.chance(1, 10):  # drive cells to their storage limit: the layout rule includes the pinning
+                n = rng.choice((2**32 - 1, 2**31, 2**32 + 7) if kind == "cbloom" else (2**31 - 1, 2**31 + 9, 2**30))
+            return {"op": "add", "k": k, "n": n}
         if kind in ("expanding", "rotating"):
             if r < 20:
                 return {"op": "push"}
